@@ -692,6 +692,24 @@ func (fb *fnBounds) inferPhiInvariants() {
 			}
 		}
 	}
+	// the function's own surviving strict preconditions on its receiver (cursor < len(buffer), cursor ≥ k)
+	// as candidates at merge points: a loop that only calls non-advancing-on-failure readers keeps them
+	if T := recvStruct(fn); T != nil {
+		for _, c := range fb.bp.preCandidates(fn) {
+			if c.Arg >= 0 || !fb.bp.cand[c.key()] || c.T != T {
+				continue
+			}
+			c := c
+			for _, b := range fn.Blocks {
+				if len(b.Preds) < 2 {
+					continue
+				}
+				fb.blockInv[b] = append(fb.blockInv[b], blockCand{alive: true, desc: c.key() + " at merge",
+					at:   func(at ssa.Instruction) constraint { return c.constraint(fb, fn.Params[0], nil, at) },
+					fact: c.constraint(fb, fn.Params[0], nil, b.Instrs[0])})
+			}
+		}
+	}
 	// candidate templates
 	for _, phi := range phis {
 		pv, _ := phiVar(phi)
